@@ -30,7 +30,7 @@ CONSTANTS AtomVals,     \* part 1: atom spellings, e.g. {"1", "2"}
           MaxTail,      \* part 1: longest tail of a flat list result
           ElemTail,     \* part 1: longest tail of an element that is itself a list result
           NestTail,     \* part 1: longest tail of a list result with such elements
-          DeepTail,     \* part 1: longest tail of a THREE-level list result (-1 = none)
+          DeepTail,     \* part 1: 0 = no THREE-level list results, n > 0 = those with tails <= n - 1
           Nums,         \* part 2: operand values
           MaxOperands,  \* part 2: operands per expression
           WithNeg,      \* part 2: TRUE = also every placement of one unary minus
@@ -53,11 +53,13 @@ NestedLRs == { LR(h, t) : h \in NestElems, t \in SeqsUpTo(PairsOf(NestElems), Ne
 \* three levels, the result of `((R % s1) % s2) % s3`: an element is a list result whose elements are list
 \* results.  BinaryOpR / BinaryExprR must recurse all the way down.  Representative level-1 elements keep it small.
 D1 == IF AtomVals = {} \/ Seps = {} THEN {} ELSE
-      LET a == CHOOSE x \in AtomVals : TRUE  b == CHOOSE x \in AtomVals : \A y \in AtomVals : x = y \/ x # a
-          s1 == CHOOSE x \in Seps : TRUE     s2 == CHOOSE x \in Seps : \A y \in Seps : x = y \/ x # s1
+      LET a  == CHOOSE x \in AtomVals : TRUE
+          b  == IF \E x \in AtomVals : x # a THEN CHOOSE x \in AtomVals : x # a ELSE a
+          s1 == CHOOSE x \in Seps : TRUE
+          s2 == IF \E x \in Seps : x # s1 THEN CHOOSE x \in Seps : x # s1 ELSE s1
       IN  { At(a), LR(At(a), <<Pair(s1, At(b))>>), LR(At(b), <<Pair(s2, At(a))>>) }
 D2 == { LR(x, <<>>) : x \in D1 } \cup { LR(x, <<Pair(s, y)>>) : x \in D1, s \in Seps, y \in D1 }
-DeepLRs == IF DeepTail < 0 THEN {} ELSE { LR(h, t) : h \in D2, t \in SeqsUpTo(PairsOf(D2), DeepTail) }
+DeepLRs == IF DeepTail = 0 THEN {} ELSE { LR(h, t) : h \in D2, t \in SeqsUpTo(PairsOf(D2), DeepTail - 1) }
 ListResults == FlatLRs(MaxTail) \cup NestedLRs \cup DeepLRs
 
 \* how fn sees an element that is not folded: the harness renders []any the same way
